@@ -14,16 +14,21 @@ type Subj = SubjectThreads<Val, i64>;
 #[derive(Clone)]
 struct GProbe {
   busy: Arc<AtomicBool>,
+  /// Some(k): one of several subscribers (its events are tagged with k)
+  id: Option<usize>,
 }
 
 impl GProbe {
   fn call(&self, e: Ev) {
     if self.busy.swap(true, Ordering::SeqCst) {
-      log("(ov 0)".into());
+      log(format!("(ov {})", self.id.unwrap_or(0)));
     }
     gate(None);
     let (t, j) = cur();
-    let mut s = String::from("(v ");
+    let mut s = match self.id {
+      Some(k) => format!("(vp {k} "),
+      None => String::from("(v "),
+    };
     e.show(&mut s);
     s.push_str(&format!(" {t} {j})"));
     log(s);
@@ -51,6 +56,8 @@ type Ender = Arc<Mutex<Option<Box<dyn FnOnce() + Send>>>>;
 type Closed = Option<Box<dyn Fn() -> bool + Send + Sync>>;
 
 struct World {
+  shared: Mutex<Option<Obs>>,
+  handles: Mutex<std::collections::HashMap<usize, BoxSubscriptionThreads>>,
   closed: Closed,
   a: Subj,
   b: Subj,
@@ -76,6 +83,23 @@ fn run_op(op: &Sexp, w: &World) {
       "e" => w.outer.clone().error(x[0].args()[0].int()),
       h => panic!("bad outer event {h}"),
     },
+    // share_threads: subscriber K joins / leaves
+    "sub" => {
+      let k = x[0].usize();
+      let o = w.shared.lock().unwrap().as_ref().expect("share pipe").clone();
+      let h = BoxSubscriptionThreads::new(o.actual_subscribe(GProbe { busy: Arc::default(), id: Some(k) }));
+      w.handles.lock().unwrap().insert(k, h);
+    }
+    "unsub" => {
+      let k = x[0].usize();
+      let h = w.handles.lock().unwrap().remove(&k);
+      match h {
+        Some(h) => h.unsubscribe(),
+        None => gate(None),
+      }
+      let (t, j) = cur();
+      log(format!("(up {k} {t} {j})"));
+    }
     "closed" => {
       if let Some(f) = w.closed.as_ref() {
         let b = f();
@@ -96,13 +120,14 @@ fn run_op(op: &Sexp, w: &World) {
   }
 }
 
-/// (ileave2 PIPE (threads (OP...) ...) (sched T...)) with PIPE = (op2 SPEC) | (flat LIMIT) | (fin) | (hot)
+/// (ileave2 PIPE (threads (OP...) ...) (sched T...)) with PIPE = (op2 SPEC) | (flat LIMIT) | (fin) | (hot) | (share)
 pub fn run_ileave2(body: &[Sexp]) -> String {
   let a = Subj::default();
   let b = Subj::default();
   let outer: SubjectThreads<Obs, i64> = <_>::default();
   let hots: Vec<Subj> = (0..3).map(|_| Subj::default()).collect();
-  let probe = GProbe { busy: Arc::default() };
+  let probe = GProbe { busy: Arc::default(), id: None };
+  let mut shared: Option<Obs> = None;
   let pipe = &body[0];
   let mut closed: Closed = None;
   let ender: Box<dyn FnOnce() + Send> = match pipe.head() {
@@ -117,6 +142,25 @@ pub fn run_ileave2(body: &[Sexp]) -> String {
       let o = apply_op2(&pipe.args()[0], a.clone().box_it(), b.clone().box_it());
       let sub = o.actual_subscribe(probe);
       Box::new(move || sub.unsubscribe())
+    }
+    // share_threads over a subject behind a counted subscription and a tap: subscribers join and leave from threads
+    "share" => {
+      drop(probe);
+      let src = a.clone();
+      let o = observable::defer(move || {
+        log("(connect)".into());
+        src.clone()
+      })
+      .tap(|v: &Val| {
+        let mut s = String::from("(tap ");
+        v.show(&mut s);
+        s.push(')');
+        log(s);
+      })
+      .share_threads()
+      .box_it();
+      shared = Some(o);
+      Box::new(|| {})
     }
     "fin" => {
       let o = a.clone().finalize_threads(|| {
@@ -134,7 +178,7 @@ pub fn run_ileave2(body: &[Sexp]) -> String {
     }
     p => panic!("bad ileave2 pipe {p}"),
   };
-  let world = Arc::new(World { closed, a, b, outer, hots, ender: Arc::new(Mutex::new(Some(ender))) });
+  let world = Arc::new(World { shared: Mutex::new(shared), handles: Mutex::new(Default::default()), closed, a, b, outer, hots, ender: Arc::new(Mutex::new(Some(ender))) });
   // an optional sequential prologue (setup OP...) runs before the threads start
   if let Some(setup) = body.get(3) {
     for op in setup.args() {
